@@ -133,6 +133,20 @@ CLAIMED['C15'] = dict(
          'behaviour are assumed (S1). Bounded: every prefix of three reference streams through the real read_packet with a read budget.',
     design='§6 C15')
 
+CLAIMED['C13'] = dict(
+    text='Connection._react and _write_packet are verified from their real source for listener lists of ANY length: the '
+         'two loops over the listener lists carry for-loop invariants over the element index with ghost call counters '
+         '(early count, built-in stage, ordinary count); each abstract listener call checks that it happens in the documented '
+         'position, and may return, raise IgnorePacket or raise another exception. Discharged: order early -> built-in -> '
+         'ordinary, each exactly once, IgnorePacket from stage j stops everything after j and is swallowed, other exceptions '
+         'propagate, no list/flag is modified, an early outgoing IgnorePacket suppresses the write, the write gets the threshold '
+         'iff compression is enabled. PacketListener.call_packet: registered-type list of symbolic length with an abstract '
+         'isinstance relation (quantified invariant): called at most once, exactly once iff some type matches. '
+         'register_packet_listener: all 9 flag combinations, appended to exactly the selected list.',
+    note='Trusted: callbacks do not mutate the listener lists during dispatch; Python list.append semantics. Bounded: seeded '
+         'concrete listener configurations on the real Connection, exhaustive type-filter hierarchy.',
+    design='§6 C13')
+
 PLANNED = {
     'C01': 'check not built yet (DESIGN §6 C01): frame contracts on Packet.write/_write_buffer/read_packet',
     'C02': 'check not built yet (DESIGN §6 C02)',
